@@ -60,8 +60,13 @@ func mkItem(cs *gen.Case, i int) Item {
 // verb × carrier × component so that every combination is seen.
 func CoreCorpus(g *gen.Gen, n int) []Item {
 	items := make([]Item, 0, n)
+	// the systematic slot × class catalogue first (one repetition per 2 500
+	// requested lines, at least one), then random grammar cases
+	for ci, cs := range g.Catalogue(1 + n/2500) {
+		items = append(items, mkItem(cs, ci))
+	}
 	i := 0
-	for len(items) < n {
+	for len(items) < n || i < n/2 {
 		v := gen.Verbs[i%len(gen.Verbs)]
 		car := gen.Carriers[(i/len(gen.Verbs))%len(gen.Carriers)]
 		comp := gen.Comps[(i/(len(gen.Verbs)*len(gen.Carriers)))%len(gen.Comps)]
